@@ -12,19 +12,27 @@ from .common import DECIDER, RANDOM_SOURCE
 from .depthrules import _cond_env, _dnf, filter_rule, polarity_rule, table_rule
 
 LEVEL_TEXT = (
-    "The statement is a set equality over all sequences of random decisions; deciding it needs an exhaustive "
-    "enumeration against an independent enumerator of the bounded language, which is not this family.  Claimed are "
-    "necessary conditions: (R1) nothing feasible is pruned and nothing infeasible admitted - for every type form "
-    "creation's depth increment (create_node interpreted per form, sa/treemodel.py) equals the distance table's increment "
-    "(get_distance_to_terminal interpreted with symbolic table entries) and the true contribution in the default mode, and "
-    "on every path of the grow decider the filter that reaches random.choice is equivalent to 'distance <= remaining "
-    "depth' (affine abstract interpretation, helpers inlined); (R2) every random decision in synthesis code flows through "
-    "a RandomSource / decider call (no use of the random module, numpy.random, clocks, uuid or id()/hash() values), so the "
-    "decision tree is enumerable; (R3) the full decider's frontier disjunct, evaluated in the filters that reach "
-    "random.choice, is 'distance == remaining depth' (the finding is keyed by the offset the code computes); (R4) the "
-    "recursion analysis that the full and position-independent deciders rely on sees through every wrapper form (AND forms "
-    "aggregate with max; explode_generics interpreted on nested wrapper types reaches every class inside; field types "
-    "reach it unfiltered). Reachability of every valid program is not claimed."
+    "The statement is a set equality over all sequences of random decisions. It is decided by exhaustive "
+    "interpretation on a small scope (R6) and by necessary conditions for all grammars (R1-R5): (R1) nothing "
+    "feasible is pruned and nothing infeasible admitted - for every type form creation's depth increment "
+    "(create_node interpreted per form, sa/treemodel.py) equals the distance table's increment "
+    "(get_distance_to_terminal interpreted with symbolic table entries) and the true contribution in the default "
+    "mode, and on every path of the grow decider the filter that reaches random.choice is equivalent to 'distance"
+    " <= remaining depth' (affine abstract interpretation, helpers inlined); (R2) every random decision in "
+    "synthesis code flows through a RandomSource / decider call (no use of the random module, numpy.random, "
+    "clocks, uuid or id()/hash() values), so the decision tree is enumerable; (R3) the full decider's frontier "
+    "disjunct, evaluated in the filters that reach random.choice, is 'distance == remaining depth' (the finding "
+    "is keyed by the offset the code computes); (R4) the recursion analysis that the full and position-"
+    "independent deciders rely on sees through every wrapper form (AND forms aggregate with max; on nine model "
+    "grammars whose only cycle passes through one nested wrapper type the interpreted grammar analysis reports "
+    "the cycle); (R5) the recursive set is exact on the model grammars (sa/rules/grammodel.py); (R6) creation "
+    "model (sa/rules/creationmodel.py): random_node interpreted with the real decider objects over ALL decision "
+    "scripts (depth-first enumeration of scripted choices) on four model grammars, limits up to 3 (thorough: 4): "
+    "grow produces exactly the well-typed programs of depth <= limit, position-independent grow and the dynamic-"
+    "SGE mapping stay inside that language, full creation through the limit its initializer configures produces "
+    "exactly the programs all of whose branches end at the limit (grammars where every abstract type is "
+    "recursive). Grammars with lists are outside the model (known finding R1); beyond the listed grammars and "
+    "limits the equality is not claimed."
 )
 
 
